@@ -32,6 +32,19 @@ CLAIMED = {
         "dynamic symbolic execution of the real Python code (vx) + z3 LIA/LRA, path-witness replay",
         "DESIGN.md section 4 C20",
     ),
+    "C16": (
+        "model_checking",
+        "apply_simple_adc / get_dtype / apply_sar_adc / apply_sar_adc_with_noise executed on symbolic values. Exact layer: "
+        "IEEE-754 double terms (Float64, RNE, RTZ truncation, integer casts as exact integers with the in-range side condition "
+        "as its own obligation) for every listed (resolution, concrete voltage range): bounds, low/full-scale saturation, "
+        "no-wrap for 10 (quick) / 61 (thorough) resolutions, monotonicity for <= 8 / 10 bits; decided by cvc5 (z3 fall-back). "
+        "Symbolic voltage range: bug-hunting under a time cap. Real-arithmetic layer: all clauses for every range, every listed "
+        "resolution; SAR bounds/full-scale up to 24 (64) bits, SAR monotone <= 8 (12) bits, zero-noise equivalence.",
+        "NaN inputs excluded; exact-FP verdicts hold for the listed concrete ranges; FP monotonicity beyond 8/10 bits is out of "
+        "solver reach (stated), covered only by the real-arithmetic layer; cvc5/z3 trusted.",
+        "symbolic execution of the real Python code (vx) to QF_FP / LRA terms, decided by cvc5 and z3",
+        "DESIGN.md section 4 C16",
+    ),
 }
 
 NOT_APPLICABLE = {
